@@ -9,7 +9,6 @@ Import ListNotations.
 Open Scope string_scope.
 
 Definition from_doc' := from_doc current_schema legacy_schema.
-Definition from_doc_rep' := from_doc_repaired current_schema legacy_schema.
 
 (* rows of one sub-model: (temperature, predicted, predicted_unc, heating_load, cooling_load) *)
 Definition prow := (float * float * float * float * float)%type.
@@ -29,12 +28,17 @@ Definition check_sub (s : daily_state) (kr : string * list prow) : bool :=
       end
   end.
 
+(* a day of a predict() frame: month, day of week (Monday = 1), the split key in its model_split column, and its
+   temperature / predicted / predicted_unc / heating_load / cooling_load *)
+Definition drow := (nat * nat * string * prow)%type.
+
 (* what the implementation did with a document *)
 Inductive outcome :=
 | Rejected                                    (* from_dict raised *)
 | Accepted (redump : option json)             (* json.loads(from_dict(d).to_json()); None = the very document d *)
            (preds : list (string * list prow))       (* _predict_submodel of the reloaded object, per split key *)
-           (season weekday : list json).     (* settings.season._num_dict / weekday_weekend._num_dict values *)
+           (season weekday : list json)      (* settings.season._num_dict / weekday_weekend._num_dict values *)
+           (days : list drow).               (* rows of from_dict(d).predict(a year of days) *)
 
 Definition jopt_eqb (a : option json) (b : json) : bool := match a with Some x => json_eqb x b | None => false end.
 
@@ -45,29 +49,32 @@ Fixpoint maps_eqb (a : list (option json)) (b : list json) : bool :=
   | _, _ => false
   end.
 
+(* the day is routed to exactly the sub-model the frame names, and predicted as that sub-model predicts *)
+Definition check_day (c : mclass) (s : daily_state) (r : drow) : bool :=
+  let '(month, dow, key, row) := r in
+  match route (maps_of (schema_of current_schema legacy_schema c) s) (ds_subs s) month dow with
+  | [k] => String.eqb k key && check_sub s (key, [row])
+  | _ => false
+  end.
+
 Definition check_accept (c : mclass) (s : daily_state) (redump : json) (preds : list (string * list prow))
-                        (season weekday : list json) : bool :=
+                        (season weekday : list json) (days : list drow) : bool :=
   json_eqb (to_doc c s) redump &&
   forallb (check_sub s) preds &&
   maps_eqb (season_map (schema_of current_schema legacy_schema c) (ds_settings s)) season &&
-  maps_eqb (weekday_map (schema_of current_schema legacy_schema c) (ds_settings s)) weekday.
+  maps_eqb (weekday_map (schema_of current_schema legacy_schema c) (ds_settings s)) weekday &&
+  forallb (check_day c s) days.
 
-(* stream "docs": (class, document, outcome).  In the region of finding C01-K1 (a legacy DailyModel document) the
-   unchanged code rejects and the repaired code accepts; both are models here and either is agreed with --
-   whether the rejection violates the property is the oracle's business, not the correspondence's. *)
+(* stream "docs": (class, document, outcome) against from_dict as coded *)
 Definition check_doc (cs : mclass * json * outcome) : bool :=
   let '(c, d, o) := cs in
   match o with
   | Rejected => match from_doc' c d with None => true | Some _ => false end
-  | Accepted redump0 preds season weekday =>
+  | Accepted redump0 preds season weekday days =>
       let redump := match redump0 with Some r => r | None => d end in
       match from_doc' c d with
-      | Some s => check_accept c s redump preds season weekday
-      | None =>
-          match from_doc_rep' c d with
-          | Some s => check_accept c s redump preds season weekday      (* the legacy class read it *)
-          | None => false
-          end
+      | Some s => check_accept c s redump preds season weekday days
+      | None => false
       end
   end.
 
